@@ -1028,7 +1028,13 @@ func ruleIntersectUniversal(c *Ctx, r *R) {
 			return false
 		}
 		lookups, quantAll, quantAny := 0, 0, 0
-		for _, g := range withAnon(fn) {
+		scan := withAnon(fn)
+		for _, fr := range deepFrames(fn, 2) { // the quantifier may live in a helper (inAll(sets[1:], k))
+			if fr.f != fn {
+				scan = append(scan, fr.f)
+			}
+		}
+		for _, g := range scan {
 			instrs(g, func(_ *ssa.BasicBlock, _ int, in ssa.Instruction) {
 				if lk, ok := in.(*ssa.Lookup); ok && lk.CommaOk {
 					lookups++
@@ -1045,7 +1051,8 @@ func ruleIntersectUniversal(c *Ctx, r *R) {
 				}
 			})
 		}
-		pf := &PF{N: 2}
+		pkgI := fn.Pkg
+		pf := &PF{N: 2, InScope: func(f *ssa.Function) bool { return rootFn(origin(f)).Pkg == pkgI && f.Blocks != nil && origin(f) != fn }}
 		pf.Instr = func(f *ssa.Function, in ssa.Instruction, q int) (StateSet, bool) {
 			if _, ok := in.(*ssa.Next); ok {
 				return ss(0), true // next key of the first set: a fresh decision
